@@ -58,6 +58,7 @@ def generate(rng, tier):
             cases.append({"k": "ann", "regime": regime,
                           "a": distinct(rand_records(rng, regime, nseg=rng.choice([1, 3, 5]), span=12, tracks=tr, allow_empty=0.0)),
                           "b": distinct(rand_records(rng, regime, nseg=rng.choice([1, 2, 4]), span=12, tracks=tr, allow_empty=0.0))})
+    cases += gen.far_copies(rng, cases, ['t', 'other', 'sup', 'a', 'b'], (400 if tier == "thorough" else 60))
     return {"cases": cases, "meta": {"exhaustive": True, "small_scope_cases": nex,
                                      "sizes": gen.stats(cases, {"n_t": lambda c: len(c.get("t", c.get("a", []))),
                                                                 "sup_kind": lambda c: c["sup"][0] if "sup" in c else "ann"})}}
